@@ -107,6 +107,20 @@ def c09(ck):
                         tlc_workers=8, timeout=3000)
 
 
+def c10(ck):
+    ck.rule = ("corpus: every sequence of <= 2 (thorough 3) statements over the 14 writing constructs (text, output, raw, cycle, "
+               "increment, decrement, ifchanged, tablerow, include, render, render-for, capture, failing output) plus each construct "
+               "inside a loop, a conditional, a capture and nested loops; model: the sink fails at every logical write k; "
+               "implementation: for every program and every physical call k in 0..W the real render_to runs against a sink failing at "
+               "call k, once taking whole buffers and once one byte per call; one trace per (program, k, mode); non-trivial = k > 0")
+    ck.assumptions = ["ASCII output", "the fault-free output used as `full` is the implementation's, which stage A compares with the specification's"]
+    corpus = os.path.join(driver.WORK, "C10_%s_corpus.json" % ck.tier)
+    cfg = "MC_C10_quick.cfg" if ck.tier == "quick" else "MC_C10_thorough.cfg"
+    ck.replay_stage("faultfree+model", "MC_C10", cfg, tee=corpus)
+    mx = "400" if ck.tier == "quick" else "1500"
+    ck.trace_stage("sinkfaults", ["sink", "--corpus", corpus, "--max", mx], "Trace_Sink", "Trace_Sink.cfg", heap="6g")
+
+
 def c19(ck):
     ck.rule = ("the C08 scenarios (callers x partial bodies x data, with valid, broken, absent and .liquid-suffixed partials, literal "
                "and dynamic names) run in the model under each of the three store policies; every scenario is replayed on three real "
@@ -119,7 +133,7 @@ def c19(ck):
         ck.replay_stage("body2x3policies", "MC_C08", "MC_C19_thorough.cfg", tlc_workers=12, timeout=3400)
 
 
-PROPS = {"C04": c04, "C06": c06, "C07": c07, "C08": c08, "C09": c09, "C19": c19, "C05": c05, "C18": c18}
+PROPS = {"C04": c04, "C06": c06, "C07": c07, "C08": c08, "C09": c09, "C10": c10, "C19": c19, "C05": c05, "C18": c18}
 
 
 def replay_file(prop, path):
